@@ -15,7 +15,7 @@ EXPLANATION = LEVEL_TEXT
 TECHNIQUE = "pyvc proofs of the list/slice/ITE utilities on symbolic nodes + per-shape z3 equivalence of the traversals on generated expressions"
 RULE = "bounded part: random operation trees (depth<=3) with random sub-expression replacements; distinct = distinct expressions"
 U = "vf.contracts.utils"
-FUNCTIONS = ["algorithm.ite_relocation._excavate_ite (per-node step)", "algorithm.ite_relocation._burrow_ite (per-node step)", "ast.bool.ite_cases", "ast.bool.ite_dict", "ast.bool.reverse_ite_cases", "ast.bv.BV.chop", "ast.bv.BV.get_bytes", "ast.bv.BV.get_byte"]
+FUNCTIONS = ["ast.bool.If (constructor with its inline rewrites; shared with C01)", "algorithm.ite_relocation._excavate_ite (per-node step)", "algorithm.ite_relocation._burrow_ite (per-node step)", "ast.bool.ite_cases", "ast.bool.ite_dict", "ast.bool.reverse_ite_cases", "ast.bv.BV.chop", "ast.bv.BV.get_bytes", "ast.bv.BV.get_byte"]
 TRUSTED = ["z3", "contracts of the public constructors (C01)", "claripy's Z3 translation for the per-shape equivalences (C09 round trip)"]
 ASSUMPTIONS = ["ite_dict keys lie within the index width (the split uses the unsigned <=)", "case lists of length <= 3, tables of up to 8 keys, If nesting <= 2"]
 
@@ -40,6 +40,11 @@ def tasks(tier, seed=0):
     out += [task(U, "ob_chop", f"utils.BV.chop/concat@w{w}", ["C08"], w=w, tier=tier) for w in (8, 16, 24)]
     out += [task(U, "ob_get_bytes", f"utils.BV.get_bytes/slice@w{w}", ["C08"], w=w, tier=tier) for w in (8, 20, 24, 32)]
     out += ite_step_tasks(tier, ["C08"], burrow=True)
+    # ite_cases / ite_dict / excavate_ite / burrow_ite build their results with claripy.If, which the obligations above use BY CONTRACT (an If node
+    # means if-then-else): the contract of the real constructor, inline rewrites of nested and constant conditions included, is discharged here too
+    A = "vf.contracts.annos"
+    out += [task(A, "ob_if", f"bool.If[bv]/meaning@w{w}", ["C01", "C08"], sort="bv", w=w, tier=tier) for w in ([1, 8] if tier == "quick" else [1, 2, 8, 32])]
+    out.append(task(A, "ob_if", "bool.If[bool]/meaning", ["C01", "C08"], sort="bool", tier=tier))
     out += shape_tasks(tier, seed)
     out.append(task("vf.bounded.substitute", "run", "utils.replace+replace_dict+canonicalize/exact-substitution-shapes", ["C08"], kind="bounded",
                     replay="vf.bounded.substitute:replay", budget_s=120 if tier == "quick" else 900))
